@@ -3,7 +3,7 @@ from cq import *
 from c02 import sql_ast_arg
 
 PROP = "C07"
-KNOWN = {1: "derived_table_columns_leak", 2: "update_from_returning_order", 3: "cte_alias_shared"}
+KNOWN = {1: "derived_table_columns_leak", 2: "update_from_returning_order", 3: "cte_alias_shared", 5: "star_over_unnamed_cte_column"}
 
 
 def gen(rng):
